@@ -1,6 +1,34 @@
 import Pms.Props.C07
+import Pms.Props.C07Sq
+import Pms.Props.C07Rot
 
 #print axioms Pms.Sym.C07_translation_disp
 #print axioms Pms.Sym.C07_translation_gr
 #print axioms Pms.Sym.C07_translation_sq
+#print axioms Pms.Sym.C07_image_disp
+#print axioms Pms.Sym.C07_image_gr
+#print axioms Pms.Sym.C07_relabel_gr
+#print axioms Pms.Sym.C07_species_swap_gr
+#print axioms Pms.Sym.C07_axis_perm_disp
+#print axioms Pms.Sym.C07_axis_perm_gr
+#print axioms Pms.Sym.C07_dilation_gr
 #print axioms Pms.Sym.C07_rot_dot
+#print axioms Pms.Sym.C07_translation_sq_spec
+#print axioms Pms.Sym.mode_relabel
+#print axioms Pms.Sym.C07_relabel_sq
+#print axioms Pms.Sym.C07_species_swap_sq
+#print axioms Pms.Sym.C07_axis_perm_sq
+#print axioms Pms.Sym.C07_translation_sq_real
+#print axioms Pms.Sym.C07_image_sq
+#print axioms Pms.Sym.C07_image_sq_spec
+#print axioms Pms.Sym.C07_rot_open_disp
+#print axioms Pms.Sym.C07_rot_tetra
+#print axioms Pms.Sym.C07_rot_pr
+#print axioms Pms.Sym.gyr_rotate
+#print axioms Pms.Sym.C07_rot_gyration
+#print axioms Pms.Sym.matVec_permMatrix
+#print axioms Pms.Sym.C07_axis_perm_ortho
+#print axioms Pms.Sym.C07_axis_perm_rotinv
+#print axioms Pms.Sym.C07_rot_psi2d
+#print axioms Pms.Sym.qlm_sum_kernel
+#print axioms Pms.Sym.C07_rot_ql_partial
